@@ -828,6 +828,18 @@ type c11cCase struct {
 	// Kind "metacorrupt": a region that is in use has to be looked up again (it answers NotServingRegion
 	// once) and the next len(Infos) hbase:meta answers carry these bytes as its info:regioninfo value
 	Infos []evid.B `json:"infos,omitempty"`
+	// Kind "metarow": as metacorrupt, but what is malformed is the row key (the region's name) and/or the
+	// info:server value of the next len(Rows) hbase:meta answers; Cold: the cache is empty (the malformed row
+	// is what the caller's own first lookup reads), otherwise it is read by a re-establisher
+	Rows []c11MetaRow `json:"rows,omitempty"`
+	Cold bool         `json:"cold,omitempty"`
+}
+
+type c11MetaRow struct {
+	HasKey    bool   `json:"has_key,omitempty"`
+	RowKey    evid.B `json:"row_key,omitempty"`
+	HasServer bool   `json:"has_server,omitempty"`
+	Server    evid.B `json:"server,omitempty"`
 }
 
 func c11cRun(c c11cCase) (out Outcome) {
@@ -847,7 +859,7 @@ func c11cRun(c c11cCase) (out Outcome) {
 	}
 	var o Outcome
 	run := c11cIncInBubble
-	if c.Kind == "metacorrupt" {
+	if c.Kind == "metacorrupt" || c.Kind == "metarow" {
 		run = c11cMetaInBubble
 	}
 	res := inBubble(theT, func() { o = run(c) })
@@ -855,7 +867,11 @@ func c11cRun(c c11cCase) (out Outcome) {
 		return so
 	}
 	if res.Panic != "" {
-		return viol("panic@"+topFrame(res.Stack), "an increment answered with a %d-byte value: %s\n%s", c.IncLen, res.Panic, res.Stack)
+		what := fmt.Sprintf("an increment answered with a %d-byte value", c.IncLen)
+		if c.Kind != "increment" {
+			what = fmt.Sprintf("hbase:meta serving %d malformed row(s) (kind %s, cold cache: %v)", len(c.Infos)+len(c.Rows), c.Kind, c.Cold)
+		}
+		return viol("panic@"+topFrame(res.Stack), "%s: %s\n%s", what, res.Panic, res.Stack)
 	}
 	return o
 }
@@ -906,17 +922,29 @@ func c11cMetaInBubble(c c11cCase) (out Outcome) {
 		drainClient()
 		cl.Stop()
 	}()
-	if err, cerr := doOp(client, context.Background(), "t", opSpec{Kind: "get", Key: evid.B("row"), Marker: "mkfirst"}); err != nil || cerr != nil {
-		return viol("harness", "first get: %v %v", err, cerr)
+	if !c.Cold {
+		if err, cerr := doOp(client, context.Background(), "t", opSpec{Kind: "get", Key: evid.B("row"), Marker: "mkfirst"}); err != nil || cerr != nil {
+			return viol("harness", "first get: %v %v", err, cerr)
+		}
 	}
 	cl.Lock()
 	for _, r := range cl.Regions {
-		if r.Table == "t" {
+		if r.Table == "t" && !c.Cold {
 			r.Transient = append(r.Transient, sim.Exc{Class: sim.NSRE})
 		}
 	}
 	for _, b := range c.Infos {
 		cl.MetaCorrupt = append(cl.MetaCorrupt, append([]byte{}, b...))
+	}
+	for _, r := range c.Rows {
+		var e sim.MetaRowEdit
+		if r.HasKey {
+			e.RowKey = append([]byte{}, r.RowKey...)
+		}
+		if r.HasServer {
+			e.Server = append([]byte{}, r.Server...)
+		}
+		cl.MetaRowEdit = append(cl.MetaRowEdit, e)
 	}
 	cl.Unlock()
 	ctx, cancel := context.WithTimeout(context.Background(), 10*time.Minute)
@@ -930,12 +958,19 @@ func c11cMetaInBubble(c c11cCase) (out Outcome) {
 	if err != nil {
 		// an error to the caller is acceptable (C11: result or error); hanging until the deadline is not
 		if errors.Is(err, context.DeadlineExceeded) {
-			return viol("lookup-never-recovers", "hbase:meta served %d malformed region-info values and sane ones afterwards; the request was still failing 10 virtual minutes later: %v", len(c.Infos), err)
+			return viol("lookup-never-recovers", "hbase:meta served %d malformed rows and sane ones afterwards; the request was still failing 10 virtual minutes later: %v", len(c.Infos)+len(c.Rows), err)
 		}
 		out.Labels = append(out.Labels, "error_to_caller")
 	}
 	out.NonTrivial = true
-	out.Labels = append(out.Labels, "malformed_regioninfo_during_reestablishment")
+	switch {
+	case c.Kind == "metarow" && c.Cold:
+		out.Labels = append(out.Labels, "malformed_meta_row_on_first_lookup")
+	case c.Kind == "metarow":
+		out.Labels = append(out.Labels, "malformed_meta_row_during_reestablishment")
+	default:
+		out.Labels = append(out.Labels, "malformed_regioninfo_during_reestablishment")
+	}
 	return out
 }
 
@@ -947,10 +982,58 @@ func TestC11_ClientDecoders(t *testing.T) {
 			"model server of C06 which additionally sends zero-cell partial results ahead of a row's first fragment (structurally valid, "+
 			"inconsistent with the data) and/or scan metrics nobody asked for - the C06 oracle still holds and nothing panics; (c) a region in use has to be re-established and "+
 			"hbase:meta serves 1..3 malformed info:regioninfo values (empty, 1..3 bytes, wrong magic, garbage protobuf) before sane ones - "+
-			"no goroutine of the client panics and the request recovers or fails, it does not hang. Non-trivial = every case except the "+
+			"no goroutine of the client panics and the request recovers or fails, it does not hang; (d) the same with hbase:meta rows whose row key (the "+
+			"region's name: empty, without its separators, equal to a lookup's search key, raw bytes) and/or info:server value is malformed while "+
+			"info:regioninfo is sound, read by a re-establisher or by the caller's own first lookup. Non-trivial = every case except the "+
 			"well-formed increment; distinct by case hash")
 	Drive(t, rec, true, func(t *rapid.T) c11cCase {
-		switch rapid.IntRange(0, 5).Draw(t, "what") {
+		switch rapid.IntRange(0, 7).Draw(t, "what") {
+		case 6, 7:
+			c := c11cCase{Kind: "metarow", Cold: rapid.Bool().Draw(t, "cold")}
+			n := rapid.IntRange(1, 3).Draw(t, "nrows")
+			for i := 0; i < n; i++ {
+				var r c11MetaRow
+				what := rapid.IntRange(0, 3).Draw(t, "edit")
+				if what != 1 {
+					r.HasKey = true
+					switch rapid.IntRange(0, 7).Draw(t, "keyshape") {
+					case 0:
+						r.RowKey = evid.B{}
+					case 1:
+						r.RowKey = evid.B("t")
+					case 2:
+						r.RowKey = evid.B("t,")
+					case 3:
+						r.RowKey = evid.B("t,row")
+					case 4:
+						// the very key lookups search with
+						r.RowKey = evid.B("t,row,:")
+					case 5:
+						r.RowKey = evid.B("t,,:")
+					case 6:
+						r.RowKey = evid.B(rapid.SliceOfN(rapid.Byte(), 0, 12).Draw(t, "rawkey"))
+					default:
+						r.RowKey = append(evid.B("t"), rapid.SliceOfN(rapid.SampledFrom([]byte{',', ',', ':', 'r', '0', 0, 0xff}), 0, 6).Draw(t, "tail")...)
+					}
+				}
+				if what != 0 {
+					r.HasServer = true
+					switch rapid.IntRange(0, 4).Draw(t, "srvshape") {
+					case 0:
+						r.Server = evid.B{}
+					case 1:
+						r.Server = evid.B("rs2")
+					case 2:
+						r.Server = evid.B("\xff\xfe:16020")
+					case 3:
+						r.Server = evid.B(":")
+					default:
+						r.Server = evid.B(rapid.SliceOfN(rapid.Byte(), 0, 12).Draw(t, "rawsrv"))
+					}
+				}
+				c.Rows = append(c.Rows, r)
+			}
+			return c
 		case 0:
 			return c11cCase{Kind: "increment", IncLen: rapid.IntRange(0, 12).Draw(t, "len")}
 		case 1:
